@@ -1,4 +1,5 @@
 import ObiVerif.Lemmas.DemuxMirror
+import ObiVerif.Lemmas.DemuxSym
 /-!
 # C12 — what a selected pair of hits yields is strand-symmetric for ARBITRARY flanks (chimeras)
 -/
@@ -49,5 +50,26 @@ reverse tag; test of `flankTag` on a flank that holds the tag and on one that is
 example : FixedSide ⟨2, 1, 0, 0⟩ ∧ FixedSide ⟨0, 0, 0, 0⟩ ∧
     flankTag ⟨2, 1, 0, 0⟩ [103, 97, 99, 116] = [97, 99] ∧ flankTag ⟨2, 1, 0, 0⟩ [97, 99] = [] := by
   refine ⟨Or.inr ⟨rfl, by decide, by decide⟩, Or.inl rfl, by decide, by decide⟩
+
+/-! ## the gating finding: would scanning the complemented primer "when the direct one misses" be enough? -/
+
+/-- NO: the gating has two parts — the complemented partner is searched (1) only if the primer hits and (2) only
+after its first hit.  Part (2) alone breaks strand symmetry on a read in which BOTH direct primers hit, so a fix
+limited to the reads where a direct primer misses leaves this asymmetry (and costs the same fourth scan on every
+ordinary read, whose reverse primer misses).  Hits of one marker in a read of 100 bases: R@5 CR@12 CF@30 F@50.
+On the read the CR hit at 12 lies before the first F hit and is dropped: R@5 … CF@30 comes out as an amplicon.
+On the reverse complement the mirrored F hit (a CF hit at 45) lies before the first R hit and is dropped, the
+mirrored CR hit is kept and separates the pair: nothing.  Without any gating both strands give nothing
+(`symmetric_iff_ungated`: symmetric iff the gating drops NOTHING on either strand). -/
+theorem positional_gating_breaks_symmetry :
+    let all : Hits := ⟨[(50, 55, 0)], [(12, 17, 0)], [(5, 10, 0)], [(30, 35, 0)]⟩
+    ((gate all).cr = [] ∧ (gate all).cf = [(30, 35, 0)]) ∧
+    ((mirrorHits 100 all).f = [(65, 70, 0)] ∧ (mirrorHits 100 all).r = [(83, 88, 0)] ∧
+      (gate (mirrorHits 100 all)).cr = [(90, 95, 0)] ∧ (gate (mirrorHits 100 all)).cf = []) ∧
+    (adjPairs (sortByBegin (collect [gate all] 1))).length = 1 ∧
+    adjPairs (sortByBegin (collect [gate (mirrorHits 100 all)] 1)) = [] ∧
+    adjPairs (sortByBegin (collect [all] 1)) = [] ∧
+    adjPairs (sortByBegin (collect [mirrorHits 100 all] 1)) = [] := by
+  decide
 
 end ObiVerif.Props.C12
